@@ -411,8 +411,8 @@ func (g *GW) closeLog() {
 }
 
 var (
-	rePanic = regexp.MustCompile(`(?m)^(panic: .*|fatal error: .*)$`)
-	reFrame = regexp.MustCompile(`(?m)^(github\.com/versity/versitygw/[^\s(]+)\(`)
+	rePanic     = regexp.MustCompile(`(?m)^(panic: .*|fatal error: .*)$`)
+	reFrameLine = regexp.MustCompile(`(?m)^(github\.com/versity/versitygw/.*\))\s*$`)
 )
 
 // Crash describes a panic / fatal error found in a gateway log.
@@ -434,8 +434,13 @@ func (g *GW) ScrapeCrash() *Crash {
 	}
 	c := &Crash{Message: string(b[loc[0]:loc[1]])}
 	rest := b[loc[1]:]
-	if m := reFrame.FindSubmatch(rest); m != nil {
-		c.TopFrame = string(m[1])
+	if m := reFrameLine.FindSubmatch(rest); m != nil {
+		// the function name is everything before the argument list (pointer receivers contain parentheses)
+		l := string(m[1])
+		if i := strings.LastIndexByte(l, '('); i > 0 {
+			l = l[:i]
+		}
+		c.TopFrame = l
 	}
 	end := loc[0] + 3000
 	if end > len(b) {
